@@ -124,7 +124,8 @@ private:
     bool operator!=(const marked_idx& other) const noexcept { return this->_val != other._val; }
 
   private:
-    static constexpr unsigned bits = 16;
+    // the lower half holds the index (must be able to address k * num_segments entries), the upper half the version tag
+    static constexpr unsigned bits = 32;
     static constexpr uint64_t val_mask = (static_cast<uint64_t>(1) << bits) - 1;
     uint64_t _val = 0;
   };
@@ -155,7 +156,9 @@ kirsch_bounded_kfifo_queue<T, Policies...>::kirsch_bounded_kfifo_queue(uint64_t 
     _k(k),
     _head(),
     _tail(),
-    _queue(new entry[k * num_segments]()) {}
+    _queue(new entry[k * num_segments]()) {
+  assert(_queue_size <= (static_cast<std::uint64_t>(1) << 32) && "k * num_segments must be representable in marked_idx");
+}
 
 template <class T, class... Policies>
 kirsch_bounded_kfifo_queue<T, Policies...>::~kirsch_bounded_kfifo_queue() {
